@@ -39,6 +39,9 @@ record('userdataitems.UserIdentityNegotiationSubItem', reserved='int', user_iden
 record('userdataitems.UserIdentityNegotiationSubItemAc', reserved='int', server_response='str')
 record('userdataitems.GenericUserDataSubItem', item_type='int', reserved='int', user_data='bytes')
 
+# ---- harness value types (no repository class): data sets the application oracle hands out
+record('harness.AppDataset', handle='int', SOPClassUID='str', SOPInstanceUID='str')
+
 family('VarItem', ['pdu.ApplicationContextItem', 'pdu.PresentationContextItemRQ',
                    'pdu.PresentationContextItemAC', 'pdu.UserInformationItem'])
 family('SubItem', ['userdataitems.MaximumLengthSubItem', 'userdataitems.ImplementationClassUIDSubItem',
